@@ -528,6 +528,14 @@ class Flow:
                 return n
             visit_Tuple = visit_List
 
+            def visit_BinOp(self, n):
+                n = self.generic_visit(n)
+                # [a] + [b, c] -> [a, b, c]  /  (a,) + (b,) -> (a, b)   (concatenation of two literal sequences of one kind)
+                if isinstance(n.op, ast.Add) and type(n.left) is type(n.right) and isinstance(n.left, (ast.List, ast.Tuple)) \
+                        and not any(isinstance(x, ast.Starred) for x in n.left.elts + n.right.elts):
+                    return ast.copy_location(type(n.left)(elts=list(n.left.elts) + list(n.right.elts), ctx=ast.Load()), n)
+                return n
+
             def visit_Subscript(self, n):
                 n = self.generic_visit(n)
                 # [a, b][0] -> a   (a literal sequence indexed by a literal position)
@@ -725,6 +733,11 @@ class Flow:
                 elif isinstance(s, ast.If):
                     walk(s.body, fors, conds + [(s.test, True)], temps)
                     walk(s.orelse, fors, conds + [(s.test, False)], temps)
+                    # `if c: x = a / else: x = b` inside the loop selects a value: later uses of x read `a if c else b`
+                    if fors and len(s.body) == 1 and len(s.orelse) == 1 and all(
+                            isinstance(b_, ast.Assign) and len(b_.targets) == 1 and isinstance(b_.targets[0], ast.Name) for b_ in (s.body[0], s.orelse[0])) \
+                            and s.body[0].targets[0].id == s.orelse[0].targets[0].id:
+                        temps.append((s.body[0].targets[0].id, ast.IfExp(test=s.test, body=s.body[0].value, orelse=s.orelse[0].value)))
                 elif isinstance(s, (ast.While, ast.With, ast.Try)):
                     for fld in ("body", "orelse", "finalbody"):
                         walk(getattr(s, fld, []) or [], fors + ["?"], conds, temps)
@@ -784,7 +797,7 @@ class Flow:
             parts = []
             for t, lab in conds:
                 t2 = subst(t, temps)
-                parts.append(t2 if lab else ast.UnaryOp(op=ast.Not(), operand=t2))
+                parts.append(t2 if lab else _negate(t2))
             return parts
 
         def elt_of(site):
@@ -1083,3 +1096,17 @@ def _strip_seq(e):
     while isinstance(e, ast.Call) and call_name(e) in ("list", "tuple", "iter") and len(e.args) == 1 and not e.keywords:
         e = e.args[0]
     return e
+
+
+_NEG_OPS = {ast.Lt: ast.GtE, ast.LtE: ast.Gt, ast.Gt: ast.LtE, ast.GtE: ast.Lt, ast.Eq: ast.NotEq, ast.NotEq: ast.Eq, ast.Is: ast.IsNot, ast.IsNot: ast.Is,
+            ast.In: ast.NotIn, ast.NotIn: ast.In}
+
+
+def _negate(t):
+    """logical negation of a test in its simplest form: `not not x` is x, `not (a in b)` is `a not in b`, `not (x is None)` is
+    `x is not None`; ordered comparisons keep the `not` (a NaN operand makes `not a <= b` differ from `a > b`)"""
+    if isinstance(t, ast.UnaryOp) and isinstance(t.op, ast.Not):
+        return t.operand
+    if isinstance(t, ast.Compare) and len(t.ops) == 1 and type(t.ops[0]) in (ast.Is, ast.IsNot, ast.In, ast.NotIn, ast.Eq, ast.NotEq):
+        return ast.copy_location(ast.Compare(left=t.left, ops=[_NEG_OPS[type(t.ops[0])]()], comparators=t.comparators), t)
+    return ast.UnaryOp(op=ast.Not(), operand=t)
